@@ -82,7 +82,9 @@ PROPS = {
     "C09": Prop([], [], ["drv_eval"], level="other", explanation="loop rejection and exception-freedom bounded"),
     "C10": Prop([], [], ["drv_loadsave"], level="other", explanation="reconstruction bounded"),
     "C11": Prop(RENDER_SIDECARS + ["contracts.c_deprecated"],
-                ["esp_kconfiglib.deprecated:DeprecatedOptions._deprecated_config_string"], ["drv_loadsave"], level="other",
+                ["esp_kconfiglib.deprecated:DeprecatedOptions._deprecated_config_string",
+                 "esp_kconfiglib.deprecated:DeprecatedOptions.is_inversion",
+                 "esp_kconfiglib.deprecated:DeprecatedOptions.get_new_option"], ["drv_loadsave"], level="other",
                 explanation="the line written for a deprecated alias is proved to carry the replacement's value, inverted "
                             "exactly for `!` aliases of bools (what a later load of the block reads back); rename resolution "
                             "while loading is bounded"),
